@@ -8,6 +8,7 @@ Array layer: frame and last-write-wins for scatter assignments, for all columns,
 lists and value lists, by induction.
 -/
 import LasModel.Model.SubField
+import LasModel.Spec.Asprs
 
 namespace LasModel.Props.C09
 open LasModel.SubField LasModel.Bits
@@ -16,6 +17,10 @@ open LasModel.SubField LasModel.Bits
 def rows : List (Nat × String × String × Nat) :=
   Gen.formatIds.flatMap fun f =>
     (Gen.composed f).flatMap fun (byteName, subs) => subs.map fun (n, m) => (f, byteName, n, m)
+
+/-- "exactly those bits": the bits a named dimension occupies are those the ASPRS layout gives it (format by format,
+    byte by byte, in order) - the table laspy's sub-field views are built from is the specification's -/
+theorem C09_bits_of_the_dimension : ∀ f ∈ Gen.formatIds, Gen.composed f = Spec.bits f := by decide +kernel
 
 /-- the masks used by the single-byte theorems are exactly those of the table -/
 theorem C09_masks_cover : ∀ r ∈ rows, r.2.2.2 ∈ Gen.allMasks := by decide +kernel
